@@ -120,7 +120,7 @@ func Check(opts Options) int {
 		if hc.Tiers != "" && hc.Tiers != opts.Tier {
 			continue
 		}
-		r := explore(P, name, base, hc, regions, nw, opts.Verbose)
+		r := explore(P, name, base, hc, regions, nw, opts.Verbose, opts.Seed)
 		results = append(results, r)
 		fmt.Fprintf(os.Stderr, "%s: paths=%d %v branches=%d sat=%d unsat=%d unknown=%d solver=%.1fs wall=%.1fs exhausted=%v\n",
 			name, r.Paths, r.Kinds, r.Branches, r.Sat, r.Unsat, r.Unknown, r.SolverS, r.WallS, r.Exhausted)
@@ -272,9 +272,37 @@ func Check(opts Options) int {
 				fmt.Printf("  unsupported x%d: %s\n", n, firstLine(msg))
 			}
 		}
-		for _, o := range r.okSamples {
-			if len(samples) < 40 {
-				samples = append(samples, map[string]any{"harness": r.Name, "kind": "ok-path", "inputs": o.Inputs, "notes": o.Notes, "branches": o.Branches, "steps": o.Steps})
+		// translation validation: sampled ok paths are replayed natively; the
+		// native run must also pass and every note recorded by both sides (the
+		// rendered output, typically) must be equal.
+		for k, o := range r.okSamples {
+			validated := false
+			if !hc.NoReplay {
+				nReplayed++
+				res, err := rp.run(scenario{Harness: r.Name, Tier: opts.Tier, Inputs: o.Inputs, Runs: 1}, "")
+				switch {
+				case err != nil:
+					fmt.Fprintf(os.Stderr, "replay error: %v\n", err)
+					r.Reasons = append(r.Reasons, "native replay unavailable: "+firstLine(err.Error()))
+				case res["kind"] != "ok":
+					fmt.Printf("DIVERGENCE harness=%s symbolic=ok native=%s inputs=%s\n", r.Name, compactJSON(res), compactJSON(o.Inputs))
+					r.Reasons = append(r.Reasons, "engine and native execution disagree on an ok path")
+				default:
+					if d := notesDiffer(o.Notes, res["notes"]); d != "" && len(hc.MapOrder) == 0 {
+						fmt.Printf("DIVERGENCE harness=%s note=%s inputs=%s\n", r.Name, d, compactJSON(o.Inputs))
+						r.Reasons = append(r.Reasons, "engine and native execution disagree on note "+d)
+					} else {
+						validated = true
+						nConfirmed++
+					}
+				}
+				if len(r.Reasons) > 0 && r.Status == "pass" {
+					r.Status = "inconclusive"
+					fmt.Printf("INCONCLUSIVE harness=%s reason=%s\n", r.Name, strings.Join(r.Reasons, "; "))
+				}
+			}
+			if k < 3 && len(samples) < 60 {
+				samples = append(samples, map[string]any{"harness": r.Name, "kind": "ok-path", "inputs": o.Inputs, "notes": o.Notes, "branches": o.Branches, "steps": o.Steps, "native_agrees": validated})
 			}
 		}
 	}
@@ -339,4 +367,23 @@ func firstLine(s string) string {
 		return s[:i]
 	}
 	return s
+}
+
+// notesDiffer compares the notes of the symbolic path (evaluated under the
+// model) with the native run; it returns the first key whose values differ.
+func notesDiffer(symNotes map[string]any, native any) string {
+	nm, ok := native.(map[string]any)
+	if !ok {
+		return ""
+	}
+	for k, sv := range symNotes {
+		nv, ok := nm[k]
+		if !ok {
+			continue
+		}
+		if fmt.Sprint(sv) != fmt.Sprint(nv) {
+			return fmt.Sprintf("%s: symbolic=%q native=%q", k, fmt.Sprint(sv), fmt.Sprint(nv))
+		}
+	}
+	return ""
 }
